@@ -161,12 +161,20 @@ func (e *enc) opt(present bool, xs ...int) {
 	}
 }
 
-// canonical value of results produced by a timeout route (an ISO timestamp in the implementation)
+// canonical value of results produced by a timeout route: the implementation saves the time of the timeout
+// (an ISO timestamp of the sequential test clock, which starts at 2020-01-01, possibly cut by
+// MaxResultChars), the model saves "T" (cut likewise).  No generated text starts like a timestamp.
 func canonValue(value, category string) string {
-	if category == "Timeout" {
-		return "T"
+	const ref = "2020-01-01T"
+	if value == "" {
+		return value
 	}
-	return value
+	for i := 0; i < len(value) && i < len(ref); i++ {
+		if value[i] != ref[i] {
+			return value
+		}
+	}
+	return "T"
 }
 
 func (e *enc) event(s flows.Session, ev flows.Event) {
